@@ -160,6 +160,8 @@ func c09(c *Ctx) {
 		c.Sample(map[string]interface{}{"corpus_file": e.Name, "mode": e.Mode, "docs": m.NumDocs, "note": e.Note})
 		c.End()
 	}
+	// ---- part 1b: the merge plans of C05 (all plan classes), every output decoded
+	mergeWorkload(c, sliceDec)
 	// ---- part 1: files written now
 	n := c.N(600, 8000)
 	tallEvery := c.N(12, 12)
